@@ -94,7 +94,7 @@ func (s *endpointPickStrategy) Pop() (*EndpointInfo, error) {
 	// TODO: apply strategy
 	key := fmt.Sprintf("%v", readyEndpoints)
 	var i uint64
-	lb, _ := s.cluster.loadbalancer.LoadOrStore(key, &i)
+	lb, _ := s.cluster.loadBalancerCursors().LoadOrStore(key, &i)
 	index := atomic.AddUint64(lb.(*uint64), 1)
 	index = index % uint64(len(readyEndpoints))
 	return readyEndpoints[index], nil
@@ -127,8 +127,10 @@ type ClusterInfo struct {
 	ctx    context.Context
 	cancel context.CancelFunc
 
-	flowcontrol  gatewayflowcontrol.UpstreamLimiter
-	loadbalancer sync.Map
+	flowcontrol gatewayflowcontrol.UpstreamLimiter
+	// loadbalancer holds a *sync.Map with the round-robin cursors. The map is replaced as a whole when the
+	// server list changes; it must never be reset in place, requests use it concurrently.
+	loadbalancer atomic.Value
 
 	// upstream endpoint client rest config, the host must be replaced when using it
 	restConfig *rest.Config
@@ -174,11 +176,11 @@ func NewEmptyClusterInfo(clusterName string, config *rest.Config, healthCheck En
 		healthCheckInterval: 5 * time.Second,
 		globalRateLimiter:   rateLimiter,
 		flowcontrol:         limiter,
-		loadbalancer:        sync.Map{},
 		endpointHeathCheck:  healthCheck,
 		skipSyncEndpoints:   skipEndpoints,
 		featuregate:         features.DefaultMutableFeatureGate.DeepCopy(),
 	}
+	info.loadbalancer.Store(&sync.Map{})
 	return info
 }
 
@@ -200,6 +202,16 @@ func CreateClusterInfo(cluster *proxyv1alpha1.UpstreamCluster,
 		return nil, err
 	}
 	return info, nil
+}
+
+func (c *ClusterInfo) loadBalancerCursors() *sync.Map {
+	if m, ok := c.loadbalancer.Load().(*sync.Map); ok {
+		return m
+	}
+	// ClusterInfo was not built by NewEmptyClusterInfo
+	m := &sync.Map{}
+	c.loadbalancer.Store(m)
+	return m
 }
 
 func (c *ClusterInfo) Context() context.Context {
@@ -347,7 +359,7 @@ func (c *ClusterInfo) syncEndpoints(servers []proxyv1alpha1.UpstreamClusterServe
 
 	if added.Len() > 0 || deleted.Len() > 0 {
 		// servers changed, reset loadbalancer
-		c.loadbalancer = sync.Map{}
+		c.loadbalancer.Store(&sync.Map{})
 	}
 
 	deleted.Range(func(index int, elem interface{}) bool {
